@@ -66,12 +66,21 @@ def greedy_publishes(prog: Program, rep, RID: str):
     # measured after that one was padded already, stays short: k paths are published with fewer weights
     pads = [st for st in walk_no_nested(f.node) if isinstance(st, ast.AugAssign) and isinstance(st.op, ast.Add) and isinstance(st.target, ast.Name) and
             st.target.id in (pv, wv) and isinstance(st.value, (ast.ListComp, ast.BinOp))]
+    from rules.common import local_single_defs as _lsd_p, substitute_locals as _sl_p
+    _pdefs = _lsd_p(f.node)
     for st in pads:
         keyp = f"kFlowDecomp._get_solution_with_greedy:padding[{st.target.id}]"
-        lens = [norm(c.args[0]) for c in ast.walk(st.value) if isinstance(c, ast.Call) and dotted(c.func) == "len" and len(c.args) == 1 and norm(c.args[0]) in (pv, wv)]
+        val_ = _sl_p(st.value, _pdefs)
+        lens = [norm(c.args[0]) for c in ast.walk(val_) if isinstance(c, ast.Call) and dotted(c.func) == "len" and len(c.args) == 1 and norm(c.args[0]) in (pv, wv)]
         if not lens:
             raise AnalysisError(f"greedy: padding `{norm(st)[:80]}` does not count a deficit with len()")
         earlier_padded = {p_.target.id for p_ in pads if p_.lineno < st.lineno}
+        # a deficit named by a local is measured where the local is defined
+        via_local = [n_.id for n_ in ast.walk(st.value) if isinstance(n_, ast.Name) and n_.id in _pdefs and "len(" in norm(_pdefs[n_.id])]
+        if via_local and not all(l == st.target.id for l in lens):
+            def_line = min(s_.lineno for s_ in ast.walk(f.node) if isinstance(s_, ast.Assign) and any(isinstance(t_, ast.Name) and t_.id in via_local for t_ in s_.targets))
+            if all(def_line < p_.lineno for p_ in pads):
+                raise AnalysisError(f"greedy: `{norm(st)[:70]}` pads by a deficit measured on another list before any padding: equal only if both lists have one length - not decided")
         if all(l == st.target.id for l in lens):
             rep.ok(RID, keyp, f"`{st.target.id}` is padded by its own deficit", f.loc(st))
         elif any(l in earlier_padded for l in lens):
